@@ -13,8 +13,8 @@
    cell geometries in that range; the float64 arithmetic of resizeImage is modelled bit-exactly
    ([rn], theorem C20_float_model), the int64/float64 overflow behaviour of larger operands is
    not.  Not proved here: window clipping (C11; C20_draw_* only show that every write is a
-   Window.SetCell inside the image's own cell rectangle), the extent of a kitty placement (the
-   terminal paints it; KittyImage.Draw never consults the window size), and the encoders behind
+   Window.SetCell inside the image's own cell rectangle; C20_placement_inside_window shows that
+   a kitty/sixel placement is only made into a window that holds it), and the encoders behind
    kitty/sixel (PNG, go-sixel, octreequant) and x/image/draw's scaler, which are oracles. *)
 From Vx Require Import base.Prelude model.Image proofs.ImageProofs.
 
@@ -194,6 +194,15 @@ Theorem C20_placement_protocol : forall ops i r cur,
 Proof. exact placement_protocol. Qed.
 Print Assumptions C20_placement_protocol.
 
+(* KittyImage.Draw and Sixel.Draw place an image only into a window at least as large as the
+   image: every placement of every frame was drawn into such a window, so the cells the terminal
+   paints for it (p_w x p_h from the window's origin) lie inside the target window *)
+Theorem C20_placement_inside_window : forall ops i r cur p,
+  nth_error (frames_of [] ops) i = Some (r, cur) -> In p cur ->
+  exists ww wh, In (ODraw p ww wh) ops /\ p_w p <= ww /\ p_h p <= wh.
+Proof. exact placement_inside_window. Qed.
+Print Assumptions C20_placement_inside_window.
+
 (* one event list per Render/Refresh *)
 Theorem C20_placement_frames : forall ops, length (run_ops g_init ops) = length (frames_of [] ops).
 Proof. exact run_ops_length. Qed.
@@ -210,12 +219,13 @@ Proof. vm_compute. repeat split; reflexivity || discriminate. Qed.
 Example C20_example_float : resize_dims 49 1 1 1 1 1 = RDims 0 0 /\ rn 1 3 = (6004799503160661, 18014398509481984).
 Proof. vm_compute. split; reflexivity. Qed.
 
-(* a history: draw p, render, move it, render, keep, render, refresh *)
+(* a history: draw p, render, move it, render, keep, render, refresh; then a window too small *)
 Example C20_example_history :
   let p := {| p_id := 1; p_col := 2; p_row := 3; p_w := 4; p_h := 2 |} in
   let q := {| p_id := 1; p_col := 5; p_row := 3; p_w := 4; p_h := 2 |} in
-  run_ops g_init [ODraw p; ORender; OClear; ODraw q; ORender; OClear; ODraw q; ORender; ORefresh] =
-  [[GWrite p]; [GDelete p; GWrite q]; []; [GDelete q; GWrite q]].
+  run_ops g_init [ODraw p 10 5; ORender; OClear; ODraw q 4 2; ORender; OClear; ODraw q 4 2; ORender; ORefresh;
+                  OClear; ODraw p 3 2; ORender] =
+  [[GWrite p]; [GDelete p; GWrite q]; []; [GDelete q; GWrite q]; [GDelete q]].
 Proof. vm_compute. reflexivity. Qed.
 
 (* half block: opaque red over a transparent pixel is an upper half block in red on default *)
